@@ -36,7 +36,13 @@ def r_shared_c12_r4(run, tree):
     lfold.check_load(run, tree)
 
 
-RULES = [r_shared_c12_r4, r1_r2, r2_leaf, r3]
+def r5_stored_values(run, tree):
+    run.rule("C12.R5", "cells of every level that is traversed - the coarse cells at the cap included - carry their stored values: each selected variable of each mesh reader "
+             "is decoded from its own record whatever the level (shared with C01/C13)", "D1/D7 fold of read_variables on a symbolic file", "S1", floor=4)
+    lay.check_bodies(run, tree, aspects=("values",))
+
+
+RULES = [r_shared_c12_r4, r1_r2, r2_leaf, r3, r5_stored_values]
 
 
 def t_load_space(run, tree):
